@@ -31,6 +31,23 @@ def extra_cases(tier):
                                                        surface=dict(s, n_point_masses=1))))
     C.append(Case("ComputeThrustLoads[symL_2x3]", F("structures.compute_thrust_loads", "ComputeThrustLoads",
                                                     surface=dict(s, n_point_masses=1))))
+    # AtmosComp: table look-ups by scipy interpolants (exact polynomial pieces, one path per table interval); restricted to
+    # a few intervals around 35 000 ft so that the history obligation stays cheap
+    from fractions import Fraction
+
+    from props import c17
+    from symoas.sym import const, ge, lt
+
+    extra, ac = c17.atmos_stubs()
+
+    def atm_assume(ins):
+        a = ins["altitude"][0]
+        return [ge(a, const(Fraction(30000))), lt(a, const(Fraction(40000)))]
+
+    def atm_nominal(r, rng):
+        return {"altitude": np.array([35000.0 + 100.0 * rng.random()]), "Mach_number": np.array([0.5 + 0.3 * rng.random()])}
+
+    C.append(Case("AtmosComp[30-40 kft]", F("common.atmos_comp", "AtmosComp"), extra=extra, assumptions=atm_assume, nominal=atm_nominal, max_paths=400))
     return C
 
 
@@ -54,7 +71,15 @@ def replay_point(case, env, meta, tol=1e-9):
             hist[n] = 0.3 + rng.random(r0.shapes[n])
     _, outs_f, J_f = partials.real_eval(case, vals)
     worst = (0.0, "")
-    for history in ([hist], [vals], [hist, vals]):
+    # histories: another point; the same point; both; and, for caches keyed on part of the inputs, another point that
+    # shares exactly one input with the current one (one such history per input)
+    shared = []
+    if len(r0.in_names) > 1:
+        for n in r0.in_names:
+            h = dict(hist)
+            h[n] = vals[n]
+            shared.append([h])
+    for history in [[hist], [vals], [hist, vals]] + shared:
         _, outs_h, J_h = partials.real_eval(case, vals, history=history)
         if meta["what"] == "output":
             a, b = np.asarray(outs_f[meta["of"]], dtype=float), np.asarray(outs_h[meta["of"]], dtype=float)
